@@ -88,3 +88,25 @@ CHECKS["C03"] = {
             "parameters, and a junk keyword changed nothing.",
     "note": _NOTE,
 }
+
+CHECKS["C02"] = {
+    "design_ref": "DESIGN.md section 5 C02",
+    "technique": "runtime execution of every metric on (x, deepcopy(x)) recorded "
+                 "in an event log; offline checker compares each recorded value "
+                 "with the optimum table",
+    "text": "Every recorded execution of every metric function and evaluate() on a "
+            "valid non-degenerate annotation scored against a deep copy of itself "
+            "returned the optimum (1 / 0 / H(x) / documented-0 conventions) under "
+            "all parameter settings drawn; exploration over seeded inputs.",
+    "note": _NOTE,
+}
+CHECKS["C06"] = {
+    "design_ref": "DESIGN.md section 5 C06",
+    "technique": "offline relation checker over a recorded event log of "
+                 "metric(a,b) / metric(b,a) executions (swap table)",
+    "text": "For every recorded pair of executions with reference and estimate "
+            "exchanged, precision and recall (over/under-segmentation, ref-to-est/"
+            "est-to-ref deviation) were exchanged and the symmetric scores equal "
+            "to 1e-9, on pairs of deliberately unequal size.",
+    "note": _NOTE,
+}
